@@ -173,6 +173,17 @@ fn run_every_prefix(ctx: &Ctx) -> Report {
         let np = p.max_period();
         let len = 3 * np + 5;
         let mut hist = stream(*bars, len, seed.wrapping_mul(131) ^ (*r * 7 + *n as u64));
+        // every fourth repetition: non-finite and extreme inputs scattered through the history, so that a
+        // checkpoint is taken immediately after each of them (a state holding NaN / inf must survive too)
+        if *r % 4 == 3 {
+            let mut hr = Rng::new(seed ^ (*r * 977 + *n as u64));
+            for k in 0..hist.len() {
+                if hr.chance(0.2) {
+                    hist[k] = if *bars { Op::NextBar(hostile_bar(&mut hr)) } else { Op::NextF(hostile_scalar(&mut hr)) };
+                }
+            }
+            rep.count("prefix.histories_with_nonfinite_inputs");
+        }
         // a reset somewhere inside in some repetitions, so "just reset" is a checkpoint position too
         if *r % 3 == 1 {
             hist[np + 1] = Op::Reset;
@@ -289,8 +300,38 @@ fn run_dataitem(ctx: &Ctx) -> Report {
     rep
 }
 
+fn run_huge_periods(ctx: &Ctx) -> Report {
+    let jobs = crate::common::huge_period_params();
+    let seed = ctx.seed;
+    par_run(jobs, ctx.threads, move |p, rep| {
+        if Inst::try_new(p).is_err() {
+            rep.count("skipped.constructor_failed(see C11)");
+            return;
+        }
+        for bars in [false, true] {
+            if !bars && !p.kind.has_scalar() {
+                continue;
+            }
+            let hist = stream(bars, 9, seed ^ 5);
+            let cont = stream(bars, 9, seed ^ 6);
+            for cut in [0usize, 1, 9] {
+                let mut a = Inst::new(p);
+                for op in &hist[..cut] {
+                    a.apply(op);
+                }
+                checkpoint_and_compare(rep, p, &mut a, &hist[..cut], &cont, "huge_period", false);
+                rep.count("huge_period_checkpoints");
+                rep.distinct_by_construction += 1;
+            }
+        }
+    })
+}
+
 pub fn run(ctx: &Ctx) -> Report {
     let mut rep = Report::new();
+    if ctx.phase_enabled("huge") {
+        rep.merge(run_huge_periods(ctx));
+    }
     if ctx.phase_enabled("prefix") {
         rep.merge(run_every_prefix(ctx));
     }
